@@ -132,13 +132,15 @@ func (r *gatewayController) buildDesiredHTTPRoute(rules []gatewayv1beta1.HTTPRou
 	if weight != nil && *weight == -1 {
 		for i := range rules {
 			rule := rules[i]
+			// a rule without backendRefs (e.g. a redirect rule) is the user's, not a canary rule generated here
+			hadBackends := len(rule.BackendRefs) != 0
 			filterOutServiceBackendRef(&rule, r.conf.CanaryService)
 			_, stableRef := getServiceBackendRef(rule, r.conf.StableService)
 			if stableRef != nil {
 				stableRef.Weight = utilpointer.Int32(1)
 				setServiceBackendRef(&rule, *stableRef)
 			}
-			if len(rule.BackendRefs) != 0 {
+			if len(rule.BackendRefs) != 0 || !hadBackends {
 				desired = append(desired, rule)
 			}
 		}
